@@ -99,6 +99,7 @@ def write_evidence(report, lean, extra_cov=None, assumptions=()):
                        % (report.prop, "; lake env leanchecker Jasm.Properties.%s" % report.prop if report.tier == "thorough" else ""),
         "trusted_base": TRUSTED_BASE,
         "theorems": lean["obligations"],
+        "supporting_lemmas_audited": lean.get("supporting_lemmas", []),
         "axioms": lean["axioms"],
         "broken_obligations": lean["broken"],
         "t0_constants": lean["t0"].get("status", {}),
